@@ -770,7 +770,8 @@ func (c *CapGracefulRestart) DecodeFromBytes(data []byte) error {
 
 func (c *CapGracefulRestart) Serialize() ([]byte, error) {
 	buf := make([]byte, 2, 2+4*len(c.Tuples))
-	binary.BigEndian.PutUint16(buf[0:], uint16(c.Flags)<<12|c.Time)
+	// Restart Time is a 12-bit field: never let it spill into the Restart Flags
+	binary.BigEndian.PutUint16(buf[0:], uint16(c.Flags)<<12|min(c.Time, 0x0fff))
 	var tbuf [4]byte
 	for _, t := range c.Tuples {
 		binary.BigEndian.PutUint16(tbuf[:2], t.AFI)
